@@ -2,9 +2,9 @@ import Proofs.C05Dispatch
 /-!
 # C05 dispatch — the FULL theorems, for the code after the proposed fixes (`fx = true`)
 
-props/C05.disp.fix-1.diff  Conn.heartBeat        `default:` counts a failed heartbeat instead of `panic`
-props/C05.disp.fix-2.diff  controlConn.heartBeat `default:` reconnects instead of `panic`
-props/C05.disp.fix-3.diff  authenticateHandshake returns an error when AUTH_CHALLENGE arrives and
+props/C05.fix-16.diff  Conn.heartBeat        `default:` counts a failed heartbeat instead of `panic`
+props/C05.fix-17.diff  controlConn.heartBeat `default:` reconnects instead of `panic`
+props/C05.fix-18.diff  authenticateHandshake returns an error when AUTH_CHALLENGE arrives and
                            the authenticator gave no challenger
 
 NOT listed in props/C05.json until the fixes are committed (then `Dispatch.current := true`, the
